@@ -24,8 +24,17 @@ CTOR_WRITERS = {"cm_colors.core.colors.Color.__init__", "cm_colors.core.colors.C
                 "cm_colors.core.colors.ColorPair.__init__"}
 OK_DECORATORS = {"builtins.property", "builtins.staticmethod", "builtins.classmethod"}
 OK_DECORATOR_PREFIX = ("click.",)
-IMMUTABLE_TOPLEVEL_CALLS = {"re.compile", "builtins.frozenset", "builtins.tuple", "builtins.float", "builtins.int",
+IMMUTABLE_TOPLEVEL_CALLS = {"logging.getLogger", "re.compile", "builtins.frozenset", "builtins.tuple", "builtins.float", "builtins.int",
                             "builtins.str", "typing.TypeVar", "typing.NewType"}
+
+
+def import_time_bad(sc, call) -> bool:
+    """A call at import time that brings in ambient input, I/O or dynamic code (pure computation of constants is fine)."""
+    from sa.effects import AMBIENT_PREFIXES, DYNAMIC, io_kind_of
+    q = sc.resolve(call.func)
+    if q is None:
+        return False
+    return q.startswith(AMBIENT_PREFIXES) or q in DYNAMIC or io_kind_of(q) is not None
 
 
 def parent_map(tree):
@@ -85,14 +94,16 @@ def run(project, chk):
                     module_mutables[f"{m.name}.{name}"] = (m, st)
                     continue
                 calls = [c for c in ast.walk(v) if isinstance(c, ast.Call)]
-                bad = [c for c in calls if sc.resolve(c.func) not in IMMUTABLE_TOPLEVEL_CALLS]
+                bad = [c for c in calls if import_time_bad(sc, c)]
                 chk.check(not bad, "P7", f"{m.name}:<module>", norm_text(st), loc,
                           f"top-level assignment {name} = ... evaluates no call other than immutable constructors",
                           how="value is a constant / typing expression / re.compile",
                           message=f"module-level statement calls {', '.join(norm_text(c.func) for c in bad)} at import time (hidden state or ambient input)")
                 continue
-            chk.fail("P7", f"{m.name}:<module>", norm_text(st).split(":")[0][:120], loc,
-                     f"top-level {type(st).__name__} statement executes code at import time")
+            bad = [c for c in ast.walk(st) if isinstance(c, ast.Call) and import_time_bad(sc, c)]
+            chk.check(not bad, "P7", f"{m.name}:<module>", norm_text(st).split(":")[0][:120], loc,
+                      f"the top-level {type(st).__name__} statement only computes module constants (no I/O, ambient input or dynamic construct)", how="call census of the statement",
+                      message=f"top-level {type(st).__name__} statement calls {', '.join(norm_text(c.func) for c in bad)} at import time")
         # class-level mutable attributes
         for cname, cdef in m.classes.items():
             for st in cdef.body:
